@@ -92,6 +92,7 @@ type Partition struct {
 	LEO      int64 // log end offset == high watermark in this model
 	Batches  []*StoredBatch
 	AllBatches []*StoredBatch // every batch ever appended (retention does not remove from here)
+	LeaderSince time.Duration // when the current leader took over
 	Err      int16 // partition-level metadata error
 	waiters  []func()
 }
@@ -324,6 +325,7 @@ func (c *Cluster) TopicNames() []string {
 // MoveLeader makes broker `to` the leader of the partition.
 func (c *Cluster) MoveLeader(p *Partition, to int32) {
 	p.Leader = to
+	p.LeaderSince = c.S.Now()
 	p.Epoch++
 	p.Replicas = c.replicasFor(to)
 	p.ISR = append([]int32(nil), p.Replicas...)
